@@ -3,6 +3,7 @@
 package main
 
 import (
+	"strings"
 	"bytes"
 	"fmt"
 	"math/big"
@@ -30,6 +31,7 @@ func genC19(c *Ctx) {
 			c.Case(fmt.Sprintf("bls-mix/g=%d", g), fmt.Sprintf("expect ok #bls %d %d", g, r), mixBLS(c, g))
 			c.Case(fmt.Sprintf("ecdsa-mix/g=%d", g), fmt.Sprintf("expect ok #ecdsa %d %d", g, r), mixECDSA(c, g))
 			c.Case(fmt.Sprintf("bls-first-use/g=%d", g), fmt.Sprintf("expect ok #blsfresh %d %d", g, r), mixBLSFirstUse(c, g))
+			c.Case(fmt.Sprintf("bls-one-message-lists/g=%d", g), fmt.Sprintf("expect ok #blslists %d %d", g, r), mixBLSOneMessageLists(c, g))
 			if r%3 == 0 {
 				c.Case(fmt.Sprintf("bls-after-rejected/g=%d", g), fmt.Sprintf("expect ok #blsrej %d %d", g, r), mixBLSAfterRejected(c, g, r))
 				c.Case(fmt.Sprintf("bls-distinct-inputs/g=%d", g), fmt.Sprintf("expect ok #blsdist %d %d", g, r), mixBLSDistinctInputs(c, g))
@@ -308,7 +310,50 @@ func mixBLSDistinctInputs(c *Ctx, g int) string {
 		j.wantSig = hx(j.sig)
 		jobs[i] = j
 	}
-	round := func(j *job) string {
+	// every worker also has its own committee (2 to 5 keys, all different from the other workers' lists), with the
+	// committee's aggregate signature on a message COMMON to all workers: a key list or an aggregated key remembered from
+	// one call and served to an overlapping call with another list shows as a rejected valid aggregate, or as another
+	// committee's aggregate accepted
+	common := []byte("one message for every committee")
+	type committee struct {
+		pks     []crypto.PublicKey
+		sigs    []crypto.Signature
+		agg     crypto.Signature
+		wantKey string
+	}
+	coms := make([]*committee, g)
+	for i := range coms {
+		cm := &committee{}
+		for k := 0; k < 2+i%4; k++ {
+			sk := skFromInt(c.randScalar())
+			sg, _ := sk.Sign(common, shared)
+			cm.pks = append(cm.pks, sk.PublicKey())
+			cm.sigs = append(cm.sigs, sg)
+		}
+		cm.agg, _ = crypto.AggregateBLSSignatures(cm.sigs)
+		ak, _ := crypto.AggregateBLSPublicKeys(cm.pks)
+		cm.wantKey = hx(ak.Encode())
+		coms[i] = cm
+	}
+	comRound := func(i int) string {
+		cm, other := coms[i], coms[(i+1)%g]
+		if ok, err := crypto.VerifyBLSSignatureOneMessage(cm.pks, cm.agg, common, shared); err != nil || !ok {
+			return "valid-aggregate-rejected"
+		}
+		if g > 1 {
+			if ok, _ := crypto.VerifyBLSSignatureOneMessage(cm.pks, other.agg, common, shared); ok {
+				return "aggregate-of-another-committee-accepted"
+			}
+		}
+		if ak, err := crypto.AggregateBLSPublicKeys(cm.pks); err != nil || hx(ak.Encode()) != cm.wantKey {
+			return "aggregated-key-changed"
+		}
+		if bs, err := crypto.BatchVerifyBLSSignaturesOneMessage(cm.pks, cm.sigs, common, shared); err != nil || strings.Contains(fmt.Sprint(bs), "false") {
+			return "batch-rejected-valid-signatures"
+		}
+		return ""
+	}
+	round0 := func(j *job) string {
 		s, err := j.sk.Sign(j.msg, j.h)
 		if err != nil || hx(s) != j.wantSig {
 			return "sign-result-changed"
@@ -321,6 +366,17 @@ func mixBLSDistinctInputs(c *Ctx, g int) string {
 		}
 		if ok, _ := j.pk.Verify(j.pop, j.msg, j.h); ok {
 			return "pop-accepted-as-signature"
+		}
+		return ""
+	}
+	round := func(j *job) string {
+		if r := round0(j); r != "" {
+			return r
+		}
+		for i := range jobs {
+			if jobs[i] == j {
+				return comRound(i)
+			}
 		}
 		return ""
 	}
@@ -579,5 +635,78 @@ func mixECDSA(c *Ctx, g int) string {
 		}
 	}
 	_ = big.NewInt
+	return "ok"
+}
+
+// mixBLSOneMessageLists: nothing but overlapping VerifyBLSSignatureOneMessage / AggregateBLSPublicKeys calls, every
+// worker with its own key list (8 to 40 keys: the aggregation of the list takes long enough for calls to overlap inside
+// it), all on one message. Each worker alternates between its own list (valid aggregate: true) and its own list with
+// the aggregate of its neighbour (false). Anything remembered about "the last list" across calls is wrong here.
+func mixBLSOneMessageLists(c *Ctx, g int) string {
+	h := crypto.NewExpandMsgXOFKMAC128("lists")
+	msg := []byte("one message, many committees")
+	type committee struct {
+		pks     []crypto.PublicKey
+		agg     crypto.Signature
+		wantKey string
+	}
+	coms := make([]*committee, g)
+	for i := range coms {
+		cm := &committee{}
+		var sigs []crypto.Signature
+		for k := 0; k < 8+(i*7)%33; k++ {
+			sk := skFromInt(c.randScalar())
+			sg, _ := sk.Sign(msg, h)
+			cm.pks = append(cm.pks, sk.PublicKey())
+			sigs = append(sigs, sg)
+		}
+		cm.agg, _ = crypto.AggregateBLSSignatures(sigs)
+		ak, _ := crypto.AggregateBLSPublicKeys(cm.pks)
+		cm.wantKey = hx(ak.Encode())
+		coms[i] = cm
+	}
+	results := make([]string, g)
+	start := make(chan struct{})
+	var wg sync.WaitGroup
+	for i := 0; i < g; i++ {
+		wg.Add(1)
+		go func(i int) {
+			defer wg.Done()
+			cm, other := coms[i], coms[(i+1)%g]
+			<-start
+			for rep := 0; rep < 12; rep++ {
+				r := guard(func() string {
+					if ok, err := crypto.VerifyBLSSignatureOneMessage(cm.pks, cm.agg, msg, h); err != nil || !ok {
+						return "valid-aggregate-rejected"
+					}
+					if g > 1 {
+						if ok, _ := crypto.VerifyBLSSignatureOneMessage(cm.pks, other.agg, msg, h); ok {
+							return "aggregate-of-another-committee-accepted"
+						}
+					}
+					if ak, err := crypto.AggregateBLSPublicKeys(cm.pks); err != nil || hx(ak.Encode()) != cm.wantKey {
+						return "aggregated-key-changed"
+					}
+					return ""
+				})
+				if r != "" {
+					results[i] = fmt.Sprintf("%s worker %d repetition %d", r, i, rep)
+					return
+				}
+			}
+		}(i)
+	}
+	close(start)
+	wg.Wait()
+	for _, r := range results {
+		if r != "" {
+			return r
+		}
+	}
+	for i, cm := range coms { // and afterwards, alone
+		if ok, err := crypto.VerifyBLSSignatureOneMessage(cm.pks, cm.agg, msg, h); err != nil || !ok {
+			return fmt.Sprintf("valid-aggregate-rejected afterwards, alone, committee %d", i)
+		}
+	}
 	return "ok"
 }
